@@ -192,18 +192,33 @@ impl LruManager {
     /// Checkpoint the current state to disk.
     ///
     /// 1. Serialize the table with MD5 hash
-    /// 2. Write to new generation file
+    /// 2. Write to a temporary file, fsync it and rename it to the new
+    ///    generation file, so that a crash leaves either no file of that
+    ///    generation or a complete one
     /// 3. Delete previous generation file
     pub async fn checkpoint_to_disk(&mut self) -> crate::Result<()> {
+        use tokio::io::AsyncWriteExt;
+
         let data = serialize(&self.header, &self.entries);
         let path = lru_file_path(&self.data_dir, self.generation);
+        // Not a valid `.lru` name: ignored by find_latest_lru_file and scan_directory
+        let temp_path = path.with_extension("lru.tmp");
 
-        tokio::fs::write(&path, &data).await.map_err(|e| {
-            crate::StorageError::Cache(format!(
+        let write_result = async {
+            let mut file = tokio::fs::File::create(&temp_path).await?;
+            file.write_all(&data).await?;
+            file.sync_all().await?;
+            drop(file);
+            tokio::fs::rename(&temp_path, &path).await
+        }
+        .await;
+        if let Err(e) = write_result {
+            let _ = tokio::fs::remove_file(&temp_path).await;
+            return Err(crate::StorageError::Cache(format!(
                 "failed to write LRU checkpoint to {}: {e}",
                 path.display()
-            ))
-        })?;
+            )));
+        }
 
         debug!(
             "LRU checkpoint: generation {} -> {}",
